@@ -192,6 +192,8 @@ func extractMock() (string, error) {
 						what = "map"
 					case strings.Contains(body, `"// TODO`):
 						what = "todo"
+					case len(icc.Body) == 1 && strings.HasPrefix(body, `gf.P("// `):
+						what = "comment_only"
 					case strings.Contains(body, "generateMockFieldAssignments(") && strings.Contains(body, `" = &"`):
 						what = "alloc_recurse"
 					}
@@ -245,7 +247,7 @@ func extractMock() (string, error) {
 	fmt.Fprintf(&b, "def assignDefault : String := %s\n", leanStr(assignDefault))
 	b.WriteString("/-- the default argument handed to the selector, per kind (source text). -/\n")
 	fmt.Fprintf(&b, "def assignDefaultArg : List (String × String) := [%s]\n", strings.Join(dargs, ", "))
-	b.WriteString("/-- the message case: condition ↦ map | todo | alloc_recurse, in source order. -/\n")
+	b.WriteString("/-- the message case: condition ↦ map | todo | comment_only | alloc_recurse, in source order. -/\n")
 	fmt.Fprintf(&b, "def messageCases : List (String × String) := [%s]\n", strings.Join(msgCases, ", "))
 	// does the emitter consult cardinality / presence / oneof membership for scalar kinds?
 	consults := []string{}
@@ -443,10 +445,28 @@ func extractMock() (string, error) {
 		{"mapKeyTypeFromScalar", "keyType := g.getGoTypeScalar(keyField)"},
 		{"mapValueTypeFromScalar", "valueType := g.getGoTypeScalar(valueField)"},
 		{"mapScalarValueFromDefault", "defaultValue := g.getDefaultValue(valueField)"},
-		{"mapMessageValueRecurses", "g.generateMockFieldAssignments(gf, valueField.Message, mapValueVar)"},
+		{"mapMessageValueRecurses", "g.generateMockFieldAssignments(gf, valueField.Message, mapValueVar, visiting)"},
+		{"mapMessageValueGuarded", "if valueField.Desc.Kind() == protoreflect.MessageKind { if visiting[string(valueField.Message.Desc.FullName())] { gf.P(\"// Recursive map value type: \", fieldName, \" is left unset\") return }"},
 	}
 	for _, fc := range facts {
 		fmt.Fprintf(&b, "def %s : Bool := %v\n", fc.name, strings.Contains(mpSrc, fc.needle))
+	}
+	// the recursion guard: a path set keyed by full message name, entered on entry, left on return
+	fnSrc := srcOf(fn.Body)
+	methodFn := findFunc(f, "generateMockMethod")
+	if methodFn == nil {
+		return "", fmt.Errorf("generateMockMethod not found")
+	}
+	guard := []struct{ name, hay, needle string }{
+		{"visitingKeyIsFullName", fnSrc, "fullName := string(message.Desc.FullName())"},
+		{"visitingEnteredOnEntry", fnSrc, "visiting[fullName] = true"},
+		{"visitingLeftOnReturn", fnSrc, "defer delete(visiting, fullName)"},
+		{"visitingPassedDown", fnSrc, "g.generateMockFieldAssignments(gf, field.Message, varName+\".\"+fieldName, visiting)"},
+		{"visitingPassedToMap", fnSrc, "g.generateMockMapFieldAssignment(gf, field, varName, visiting)"},
+		{"visitingStartsEmpty", srcOf(methodFn.Body), "g.generateMockFieldAssignments(gf, method.Output, \"resp\", map[string]bool{})"},
+	}
+	for _, fc := range guard {
+		fmt.Fprintf(&b, "def %s : Bool := %v\n", fc.name, strings.Contains(fc.hay, fc.needle))
 	}
 	b.WriteString("end Sebuf.Gen.Mock\n")
 	return b.String(), nil
